@@ -475,6 +475,191 @@ def check_fromint(res, facts):
                 rf.ok(key, "Some(..) unreachable when is_geq_modulus() holds", fn.loc)
 
 
+# ------------------------------------------------------------------------------------------------
+# integer expressions over configuration parameters
+
+def ieval(t, env):
+    """evaluate a reconstructed (normalised) integer expression; env maps leaf terms / names to ints"""
+    if isinstance(t, bool):
+        return int(t)
+    if isinstance(t, int):
+        return t
+    if t in env:
+        return env[t]
+    if isinstance(t, str):
+        raise KeyError(t)
+    h = t[0]
+    if h == "bin":
+        a, b = ieval(t[2], env), ieval(t[3], env)
+        op = t[1]
+        if op == "Add":
+            return a + b
+        if op == "Sub":
+            if a < b:
+                raise ArithmeticError("underflow")
+            return a - b
+        if op == "Mul":
+            return a * b
+        if op == "Div":
+            return a // b
+        if op == "Rem":
+            return a % b
+        if op == "Shl":
+            return a << b
+        if op == "Shr":
+            return a >> b
+        if op in ("Ge", "Gt", "Le", "Lt", "Eq", "Ne"):
+            return int({"Ge": a >= b, "Gt": a > b, "Le": a <= b, "Lt": a < b, "Eq": a == b, "Ne": a != b}[op])
+    if h == "call":
+        n, args = t[1], [ieval(a, env) for a in t[2]]
+        if n == "div_ceil":
+            return -(-args[0] // args[1])
+        if n == "min":
+            return min(args)
+        if n == "max":
+            return max(args)
+        if n == "next_power_of_two":
+            v = 1
+            while v < args[0]:
+                v *= 2
+            return v
+    raise KeyError(str(t)[:80])
+
+
+def check_sopchunk(res, facts, mods):
+    """sum_of_products accumulates M products before one Montgomery step per limb: the running value stays below
+    (M+1)p, which must fit the N-limb accumulator, i.e. M <= 2^s - 1 with s = 64N - bits(p) spare bits (and the path must
+    not be taken at all for s <= 1).  The chunk length is computed twice: by a formula in the generic default and as a
+    literal baked in by the derive macro."""
+    from rules.c07 import E, show
+    rule = res.rule("R-SOPCHUNK", "sum_of_products: at most 2^s - 1 products are accumulated per chunk (s = spare bits), s <= 1 takes the plain path", 30)
+    for unit in UNITS:
+        for f in facts.fns(unit=unit):
+            if f.name != "sum_of_products" or f.kind == "Closure":
+                continue
+            if f.id == MONT + "::sum_of_products":
+                key = "ark_ff|MontConfig::sum_of_products(default)"
+                chunks = [E(f, t["args"][1]) for _, t in f.calls() if t["f"].get("name") == "chunks"]
+                guards = [E(f, b["t"]["o"]) for b in f.bbs if b["t"]["k"] == "switch"]
+                bits_t = ("call", "const_num_bits", ("MODULUS",))
+                fallback = [g for g in guards if isinstance(g, tuple) and g[0] == "bin" and g[1] in ("Ge", "Gt") and g[2] == bits_t]
+                problems = []
+                if len(set(chunks)) != 1 or len(chunks) != 2:
+                    problems.append("chunk lengths of the two operand slices differ or are missing: %s" % [show(c) for c in chunks])
+                if len(fallback) != 1:
+                    problems.append("no guard on the modulus size selects the plain path")
+                if not problems:
+                    worst = None
+                    for n in range(1, 14):
+                        for bits in range(64 * (n - 1) + 1, 64 * n + 1):
+                            env = {"N": n, bits_t: bits}
+                            try:
+                                plain = bool(ieval(fallback[0], env))
+                            except (ArithmeticError, KeyError) as e:
+                                problems.append("guard not evaluable: %s" % e)
+                                break
+                            s_ = 64 * n - bits
+                            if plain:
+                                continue
+                            if s_ <= 1:
+                                worst = worst or "N=%d, %d-bit modulus (s=%d) takes the interleaved path" % (n, bits, s_)
+                                continue
+                            try:
+                                k = ieval(chunks[0], env)
+                            except ArithmeticError:
+                                worst = worst or "N=%d, %d-bit modulus: chunk length underflows" % (n, bits)
+                                continue
+                            except KeyError as e:
+                                problems.append("chunk length not evaluable: %s" % e)
+                                break
+                            if not (1 <= k <= (1 << s_) - 1):
+                                worst = worst or "N=%d, %d-bit modulus (s=%d spare bits): chunk length %d > 2^s - 1 = %d, the accumulator (M+1)p can exceed 2^(64N)" % (n, bits, s_, k, (1 << s_) - 1)
+                        if problems:
+                            break
+                    if worst:
+                        problems.append(worst)
+                    # the M == 2 special case also needs 2 <= 2^s - 1, i.e. s >= 2: guaranteed when the guard covers s <= 1
+                (rule.bad if problems else rule.ok)(key, "; ".join(problems) if problems else "chunk = %s, within 2^s - 1 for all N <= 13 and all modulus sizes; s <= 1 takes the plain path" % show(chunks[0]), f.loc)
+                continue
+            if f.trait_impl != MONT:
+                continue
+            owner = (f.impl or {}).get("self")
+            m = mods.get((unit, owner))
+            key = "%s|%s|sum_of_products" % (f.crate, owner)
+            if m is None:
+                continue
+            p, n = m[0], m[1]
+            s_ = 64 * n - p.bit_length()
+            lits = []
+            for b in f.bbs:
+                t = b["t"]
+                if t["k"] == "switch":
+                    g = E(f, t["o"])
+                    if isinstance(g, tuple) and g[0] == "bin" and g[1] in ("Le", "Lt") and g[2] == "M" and isinstance(g[3], int):
+                        lits.append(g[3] if g[1] == "Le" else g[3] - 1)
+            chunks = [E(f, t["args"][1]) for _, t in f.calls() if t["f"].get("name") == "chunks"]
+            interleaved = any(t["f"].get("name") in ("mac_with_carry", "fold") for _, t in f.calls()) or bool(lits)
+            if not interleaved:
+                rule.ok(key, "plain path (s = %d)" % s_, f.loc)
+            elif s_ <= 1:
+                rule.bad(key, "modulus has %d spare bit(s) but the derived sum_of_products uses the interleaved accumulation" % s_, f.loc)
+            else:
+                ks = set(lits) | {c for c in chunks if isinstance(c, int)}
+                if not ks or any(not isinstance(c, int) for c in chunks):
+                    rule.undecided(key, "chunk length not a literal (%s)" % [show(c) for c in chunks], f.loc)
+                elif all(1 <= k <= (1 << s_) - 1 for k in ks):
+                    rule.ok(key, "chunk %s <= 2^%d - 1" % (sorted(ks), s_), f.loc)
+                else:
+                    rule.bad(key, "derived sum_of_products accumulates up to %d products per chunk but the %d-bit modulus over %d limbs has s = %d spare bits: more than 2^s - 1 = %d products can overflow the N-limb accumulator ((M+1)p >= 2^(64N))" % (max(ks), p.bit_length(), n, s_, (1 << s_) - 1), f.loc)
+
+
+def check_bytes(res, facts):
+    """from_le_bytes_mod_order converts a prefix directly (without reduction): it must be shorter than the modulus,
+    8 * prefix_len <= bits - 1, for every modulus size; the rest is absorbed most-significant byte first as res*256 + byte"""
+    from rules.c07 import E, show
+    rule = res.rule("R-BYTES", "from_le_bytes_mod_order: directly converted prefix is below the modulus for every modulus size; remaining bytes absorbed as res*256 + byte from the most significant end", 2)
+    fns = [f for f in facts.fns(unit="ws", crate="ark_ff") if f.id == "ark_ff::fields::prime::PrimeField::from_le_bytes_mod_order"]
+    key = "ark_ff|PrimeField::from_le_bytes_mod_order|prefix"
+    if not fns:
+        rule.bad(key, "anchor missing")
+        return
+    f = fns[0]
+    mins = [t for _, t in f.calls() if t["f"].get("name") == "min"]
+    if len(mins) != 1:
+        rule.bad(key, "prefix length is not min(bound, len)", f.loc)
+    else:
+        a, b = E(f, mins[0]["args"][0]), E(f, mins[0]["args"][1])
+        bound = b if a == ("call", "len", (("arg", 1, ()),)) else a
+        bad = None
+        try:
+            for bits in range(1, 64 * 64 + 1):
+                try:
+                    k = ieval(bound, {"MODULUS_BIT_SIZE": bits})
+                except ArithmeticError:
+                    bad = "for a %d-bit modulus the bound underflows" % bits
+                    break
+                if 8 * k > bits - 1:
+                    bad = "for a %d-bit modulus %d bytes (%d bits) are converted without reduction: the value can reach or exceed p, and from_random_bytes(..).unwrap() panics or the result is not reduced" % (bits, k, 8 * k)
+                    break
+            # split point: len - prefix
+            sp = [E(f, t["args"][1]) for _, t in f.calls() if t["f"].get("name") == "split_at"]
+            if not bad and not (len(sp) == 1 and isinstance(sp[0], tuple) and sp[0][0] == "bin" and sp[0][1] == "Sub" and sp[0][2] == ("call", "len", (("arg", 1, ()),))):
+                bad = "the directly converted part is not the trailing (most significant) bytes"
+        except KeyError as e:
+            bad = None
+            rule.undecided(key, "bound %s not evaluable (%s)" % (show(bound), e), f.loc)
+        if bad:
+            rule.bad(key, bad + " (bound = %s)" % show(bound), f.loc)
+        elif bad is None and not [1 for r_ in [0] if False]:
+            rule.ok(key, "8 * (%s) <= bits - 1 for every modulus size 1..4096" % show(bound), f.loc)
+    key = "ark_ff|PrimeField::from_le_bytes_mod_order|absorb"
+    names = [t["f"].get("name") for _, t in f.calls()]
+    w = [E(f, t["args"][1]) for _, t in f.calls() if t["f"].get("name") == "mul_assign"]
+    ad = [E(f, t["args"][1]) for _, t in f.calls() if t["f"].get("name") == "add_assign"]
+    ok = "rev" in names and w == [256] and len(ad) == 1 and names.index("mul_assign") < names.index("add_assign")
+    (rule.ok if ok else rule.bad)(key, "for byte in rest.rev(): res = res*256 + byte" if ok else "absorption loop is not res*256 + byte over the reversed remainder (mul by %s, add %s, rev: %s)" % ([show(x) for x in w], [show(x) for x in ad], "rev" in names), f.loc)
+
+
 def run(ctx, res):
     facts = ctx.facts(UNITS)
     res.analysed = facts.stats()
@@ -485,6 +670,8 @@ def run(ctx, res):
     check_ops(res, facts, reducers, mods)
     check_shape(res, facts, mods)
     check_fromint(res, facts)
+    check_sopchunk(res, facts, mods)
+    check_bytes(res, facts)
     res.notes.append("moduli analysed: %d (units %s); reduction helpers: %d; geq-predicates: %d" % (len(mods), UNITS, len(reducers), len(pinfo)))
     return {
         "level": "other",
